@@ -1,6 +1,7 @@
 package c03
 
 import (
+	"context"
 	"crypto/tls"
 	"crypto/x509"
 	"errors"
@@ -62,7 +63,11 @@ type modeSpec struct {
 	rateLimited bool // the proxy's listener is rate-limited (client leg wrapped)
 	shortLimits bool // every timeout of the proxy / transport / dialer is a few hundred milliseconds
 	viaProxy    bool // upgrade: the request goes through a scripted upstream HTTP proxy
-	base        string
+	// eos.go: how the legs are wrapped and how the end of a stream reaches the proxy
+	trackTraffic bool // both legs are conntrack connections WITH TrackTraffic (ListenerConfig.TrackTraffic, DialConnTrackTraffic)
+	tls12        bool // every TLS endpoint the harness scripts negotiates TLS 1.2 (close_notify is a visible alert record)
+	clientJoin   bool // the client leg is wrapped: its Read returns the last bytes TOGETHER with io.EOF when they arrive together
+	base         string
 }
 
 func parseMode(mode string) (m modeSpec) {
@@ -78,6 +83,12 @@ func parseMode(mode string) (m modeSpec) {
 			m.shortLimits, mode = true, mode[3:]
 		case strings.HasPrefix(mode, "px-"):
 			m.viaProxy, mode = true, mode[3:]
+		case strings.HasPrefix(mode, "tt-"):
+			m.trackTraffic, mode = true, mode[3:]
+		case strings.HasPrefix(mode, "t12-"):
+			m.tls12, mode = true, mode[4:]
+		case strings.HasPrefix(mode, "ce-"):
+			m.clientJoin, mode = true, mode[3:]
 		default:
 			m.base = mode
 			return m
@@ -127,6 +138,10 @@ type env struct {
 	cfClosed atomic.Int64
 	// roots the custom ConnectFunc of "connecttls" verifies the TLS slot targets against
 	slotRoots *x509.CertPool
+	// eos.go: how often a scripted leg handed the proxy its last bytes together with io.EOF
+	joined atomic.Int64
+	// … and the scripted legs themselves by the address of their far end (sync.Map of *joinReader)
+	joins sync.Map
 }
 
 func (e *env) close() {
@@ -199,7 +214,11 @@ func newEnv(ctx *core.Ctx, mode string) (*env, error) {
 				if conf, err = tlsConfigFor(ca, name+".test"); err != nil {
 					return nil, err
 				}
-				p, err = addPeer(rig.NewRawTLSPeer(name, conf, slotHandler(e.reg, name)))
+				if e.spec.tls12 {
+					p, err = addPeer(rig.NewRawPeer(name, corkTLS(conf, slotHandler(e.reg, name))))
+				} else {
+					p, err = addPeer(rig.NewRawTLSPeer(name, conf, slotHandler(e.reg, name)))
+				}
 			} else {
 				p, err = addPeer(rig.NewRawPeer(name, slotHandler(e.reg, name)))
 			}
@@ -225,7 +244,12 @@ func newEnv(ctx *core.Ctx, mode string) (*env, error) {
 		if err != nil {
 			return nil, err
 		}
-		p, err := addPeer(rig.NewRawTLSPeer("upstream-https", conf, connectProxyHandler(e.reg)))
+		var p *rig.Peer
+		if e.spec.tls12 {
+			p, err = addPeer(rig.NewRawPeer("upstream-https", corkTLS(conf, connectProxyHandler(e.reg))))
+		} else {
+			p, err = addPeer(rig.NewRawTLSPeer("upstream-https", conf, connectProxyHandler(e.reg)))
+		}
 		if err != nil {
 			return nil, err
 		}
@@ -278,6 +302,9 @@ func newEnv(ctx *core.Ctx, mode string) (*env, error) {
 			if e.spec.rateLimited {
 				cfg.ReadLimit, cfg.WriteLimit = 1<<36, 1<<36 // bytes per second
 			}
+			if e.spec.trackTraffic {
+				cfg.TrackTraffic = true // ListenerConfig.TrackTraffic: conntrack.Builder{TrackTraffic: true} around every accepted connection
+			}
 			if e.spec.shortLimits {
 				shortProxyLimits(cfg)
 			}
@@ -296,6 +323,19 @@ func newEnv(ctx *core.Ctx, mode string) (*env, error) {
 				}
 			}
 		},
+	}
+	if e.spec.trackTraffic {
+		// the dialer's side of the same switch: forwarder.Dialer.DialContext builds the connection with
+		// conntrack.Builder{TrackTraffic: true} when the context says DialConnTrackTraffic
+		opts.PostTransport = func(rt *http.Transport) {
+			dial := rt.DialContext
+			rt.DialContext = func(ctx context.Context, network, addr string) (net.Conn, error) {
+				return dial(forwarder.WithDialConnTrack(ctx, forwarder.DialConnTrackTraffic), network, addr)
+			}
+		}
+	}
+	if e.spec.clientJoin {
+		opts.WrapListener = func(l net.Listener) net.Listener { return &joinListener{Listener: l, e: e} }
 	}
 	var err error
 	if e.proxy, err = rig.StartProxy(opts); err != nil {
@@ -321,7 +361,7 @@ func (e *env) connectFunc(req *http.Request) (*http.Response, io.ReadWriteCloser
 	e.cfOpen.Add(1)
 	crw := e.legFor(c.(*net.TCPConn))
 	if e.spec.base == "connecttls" {
-		tconn := tls.Client(crw.(net.Conn), &tls.Config{RootCAs: e.slotRoots, ServerName: host})
+		tconn := tls.Client(crw.(net.Conn), &tls.Config{RootCAs: e.slotRoots, ServerName: host, MaxVersion: e.tlsMax()})
 		tconn.SetDeadline(time.Now().Add(10 * time.Second))
 		if err := tconn.Handshake(); err != nil {
 			tconn.Close()
